@@ -93,7 +93,8 @@ func c19LoaderCases() []c19File {
 		}
 	}
 	for _, wrap := range []string{"gzip", "gzip-isize-max", "gzip-isize-0"} {
-		for _, c := range c19Counts {
+		// + counts that a 4 GiB payload could hold (a bound computed from a forged length lets them through)
+		for _, c := range append(append([]int64{}, c19Counts...), 1<<22, 10_000_000) {
 			for _, l := range []int{8, 30, len(w)} {
 				out = append(out, c19File{Kind: "words", Prefix: l, Count: c, Dim: -1, WLen: -1, Wrap: wrap})
 			}
